@@ -1,6 +1,7 @@
 """C03 — a serial target queue (or workloop) serialises every queue targeting it."""
 import os, re, subprocess
 from common import sh
+from tracecheck import run_traces
 
 META = {
     "text": "Lean theorems over hierarchies of serial lanes of any depth and fan-in (each member an instance of the single-lane model): the projection of a reachable "
@@ -45,6 +46,9 @@ def run(ctx):
         else:
             m = re.search(r"items=(\d+)", " ".join(head)); items += int(m.group(1)) if m else 0
         paths.append(path)
+    # hierarchies whose bottom is the thread-bound main queue (drained run-loop style) or a serial queue, entered through dispatch_apply on a
+    # concurrent queue above it: the iterations are items of the hierarchy too (one at a time, in index order)
+    run_traces(ctx, "tr_apply", [[ctx.seed * 100 + 70 + i, 60 if ctx.thorough else 15] for i in range(3 if ctx.thorough else 2)], None, None, "L-api apply through hierarchies", "apply", timeout=400)
     explained = 0
     if drv:
         r = sh([drv, "lane"] + paths)
